@@ -173,7 +173,8 @@ def names_task():
              ('missing.hyeong', 'error'), ('d.hyeong', 'error'), ('nodir/x.hyeong', 'error'), ('한글 이름.hyeong', 'ok'),
              (b'\xff.hyeong', None), ('', 'error'), ('x.hyeong/', 'error')]
     for name, exp in cases:
-        for sub in (['run', '-O0'], ['run', '-O1'], ['run', '-O2'], ['check']):
+        for sub in (['run', '-O0'], ['run', '-O1'], ['run', '-O2'], ['check'], ['--verbose', 'run', '-O2'], ['--verbose', 'check'],
+                    ['run'], ['run', '--optimize', '1']):
             arg = name
             env = dict(os.environ)
             env['RUST_BACKTRACE'] = '0'
